@@ -5,6 +5,16 @@ IDS = ["C%02d" % i for i in range(1, 21)]
 
 # id -> (engine, category, technique, text, note, design_ref)
 CHECKS = {
+ "C03": ("E4-hub-scheduler", "model_checking",
+   "stateless exploration of all interleavings (iterative preemption bounding, CHESS-style) of REAL `copia serve` processes parked by an LD_PRELOAD scheduler at every libc call on the hub tree; brute-force linearizability check of every complete execution against a sequential reference hub",
+   "2 real server processes (3 at bound 1 in thorough) on one hub root, each driven by a scripted client (programs over Put / Put in 2 pieces / Delete / Get / List / stale Put / Put;Put / List;Put-with-listed-hash / Put g;Put f, on a colliding path f and a distinct path g), from an empty hub and from {f:c0}. Every schedule within preemption bound 2 (quick: 8 program pairs x 2 initial states; thorough: all 78 pairs x 2, bound 3 on focused pairs) is executed on fresh processes and a fresh tree. Oracle per execution: the invocation/response history (steps at which request frames were delivered and replies observed) plus the final hub tree must equal some one-at-a-time order, consistent with real time, of a reference hub with exact CAS semantics (commit iff current hash == expected; otherwise conflict-copy, live file untouched); deadlock, a missing reply or a non-zero server exit are violations.",
+   "Scheduling points are libc calls (open/read/write/fsync/stat/rename/unlink/flock/readdir) under the hub root plus stdin reads; <= 3 servers, <= 2 requests per client, preemption bound <= 3. Known finding D11 (List is not an atomic snapshot) is matched only when the history becomes linearizable once each List is split into per-path reads.",
+   "DESIGN.md §2.4, §3 C03"),
+ "C10": ("E4-hub-scheduler", "model_checking",
+   "same scheduler; the hub tree is snapshotted after EVERY scheduling step of every explored schedule; plus a sub-exploration with one SIGKILL of a parked server at any point, and malformed writes",
+   "(a) the C03 program pairs within preemption bound 2, hub observed after every step: every non-staging path holds the initial content or the complete bytes of one single verified Put (conflict-copy names: the losing Put's bytes); (b) the same with one extra alternative at every point - kill server i now - at preemption bound 1; (c) Puts with a wrong hash, content shorter than len then EOF, excess bytes, len 0 with bytes following, against a concurrent reader: no listed path changes; (d) every Get reply parsed from the raw stream: the announced len equals the bytes that follow and they hash to the announced hash.",
+   "As C03. Process-kill crash model (the hub's own fsyncs are not modelled here).",
+   "DESIGN.md §3 C10"),
  "C09": ("E3-crash-enumeration", "fault_enumeration",
    "exhaustive kill-point enumeration (SIGKILL before the k-th file-system or pipe-write libc call, every k) of the real `copia sync -r` in all three directions; orphaned remote commands reaped by a subreaper; re-run to completion",
    "Scenarios = direction {local, pull, push over the ssh stand-in} x destination state {absent, different size, same size + different mtime, mixed} x flags {none, --delete with stale files, --exclude} (quick: 4 scenarios; thorough: all 36), files of 0 B, 1 B, 300 KiB and 700 000 B (several transfer chunks / pipe writes), --jobs 1 with one runtime worker so the log is deterministic. For EVERY k until a run completes unkilled: kill before call k, wait for all orphaned children (the remote `cat ... && mv` runs to completion on EOF), then every non-staging destination path must hold exactly its pre-run bytes or exactly the source's bytes, paths outside the plan are untouched (bytes, mtime), the source is unchanged; then the same command must complete with exit 0 and yield the uninterrupted run's destination (bytes + whole-second mtimes).",
